@@ -75,7 +75,7 @@ def run_spec(job, instances, timeout=1500):
         mc = ("---- MODULE MC_LossProb ----\nEXTENDS LossProb\nInsts == {\n%s\n}\n====\n" % ",\n".join(tla_inst(i) for i in insts))
         cfg = tlc.cfg_text(constants={"NC": nc, "NS": ns, "PMax": 4, "ChromSeqs": "{}", "OptionSets": "{}", "FixedInsts": "<- Insts", "Dump": "TRUE"},
                            spec="Spec", invariants=["TypeOK", "Emit", "OffMeansOff", "OnMeansPositive", "ColumnRespected", "AssignedLowHigh", "TruncalNeverLost",
-                                                    "SmallNeverLost", "LostOnlyIfConcentrated", "TruncalIsCandidate", "TruncalSetNonEmpty"])
+                                                    "SmallNeverLost", "LostOnlyIfConcentrated", "TruncalIsCandidate", "TruncalSetNonEmpty", "PriorsImplyProposals"])
         jobs.append(dict(job="%s_%d_%d" % (job, nc, ns), module="MC_LossProb", cfg=cfg, mc_text=mc, workers=4, timeout=timeout))
     finals = {}
     results = tlc.run_many(jobs)
@@ -234,7 +234,7 @@ def scratch_dir(name):
 
 
 INVARIANTS = ["TypeOK", "OffMeansOff", "OnMeansPositive", "ColumnRespected", "AssignedLowHigh", "TruncalNeverLost", "SmallNeverLost",
-              "LostOnlyIfConcentrated", "TruncalIsCandidate", "TruncalSetNonEmpty"]
+              "LostOnlyIfConcentrated", "TruncalIsCandidate", "TruncalSetNonEmpty", "PriorsImplyProposals"]
 
 MC_ALL = """---- MODULE MC_LossProbAll ----
 EXTENDS LossProb
@@ -246,19 +246,24 @@ OptDef == {[assign |-> a, userprov |-> u, globpos |-> g, hascol |-> h, colpos |-
 """
 
 
-def model_runs(ck, thorough):
+def model_runs(ck, thorough, prefix=""):
     """All instances over small constants: every option record x every prevalence table x chromosome patterns."""
     pmax = 2 if thorough else 1
     extra = ", <<1, 2, 3, 4, 5>>, <<2, 2, 2, 2, 2>>" if thorough else ""
     consts = {"NC": 3, "NS": 2, "PMax": pmax, "ChromSeqs": "<- ChromDef", "OptionSets": "<- OptDef", "FixedInsts": "{}", "Dump": "FALSE"}
-    jobs = [dict(job="lossprob_all", module="MC_LossProbAll", mc_text=MC_ALL % extra, workers=(16 if thorough else 8), timeout=3000,
+    jobs = [dict(job=prefix + "lossprob_all", module="MC_LossProbAll", mc_text=MC_ALL % extra, workers=(16 if thorough else 8), timeout=3000,
                  cfg=tlc.cfg_text(constants=consts, spec="Spec", invariants=INVARIANTS)),
-            dict(job="lossprob_dev", module="MC_LossProbAll", mc_text=MC_ALL % "", workers=4, timeout=1500,
-                 cfg=tlc.cfg_text(constants=dict(consts, PMax=1), spec="Spec", invariants=["PositiveWheneverOn"]))]
-    r_all, r_dev = tlc.run_many(jobs)
+            dict(job=prefix + "lossprob_dev", module="MC_LossProbAll", mc_text=MC_ALL % "", workers=4, timeout=1500,
+                 cfg=tlc.cfg_text(constants=dict(consts, PMax=1), spec="Spec", invariants=["PositiveWheneverOn"])),
+            dict(job=prefix + "lossprob_raw", module="MC_LossProbAll", mc_text=MC_ALL % "", workers=4, timeout=1500,
+                 cfg=tlc.cfg_text(constants=dict(consts, PMax=1), spec="Spec", invariants=["PriorsImplyProposalsRaw"]))]
+    r_all, r_dev, r_raw = tlc.run_many(jobs)
     tlc.require_ok(r_all, "LossProb all instances")
     ck.add_tlc("LossProb.tla all instances (3 clusters x 2 samples, prevalences 0..%d, %d chromosome patterns, 128 option records)" % (pmax, 6 if thorough else 4), r_all)
     ck.add_tlc("LossProb.tla OBSERVATION PositiveWheneverOn (refuted: --assign-loss-prob with a column keeps zero entries)", r_dev, must_fail=True)
+    ck.add_tlc("LossProb.tla DEVIATION chain receives the option before defaulting (PriorsImplyProposalsRaw refuted)", r_raw, must_fail=True)
+    if "PriorsImplyProposalsRaw" not in r_raw.violated:
+        raise tlc.TLCError("LossProb: PriorsImplyProposalsRaw unexpectedly holds")
     if "PositiveWheneverOn" not in r_dev.violated:
         raise tlc.TLCError("LossProb: PositiveWheneverOn unexpectedly holds")
 
